@@ -1179,7 +1179,7 @@ Section RefinesAssoc.
   Proof. reflexivity. Qed.
   Lemma may_store_same m f : may_store_x cache_on status_filter_drop m (plain f) = may_store cache_on m f.
   Proof. unfold may_store_x, may_store, fx_len. rewrite wants_same. cbn [plain fx_pad fx_fat]. rewrite N.add_0_l. reflexivity. Qed.
-  Lemma admit_same m f k :
+  Lemma accept_same m f k :
     may_store_x cache_on status_filter_drop m (plain f) && (negb true || qm_key_ok k (plain f))
     = (wants_cache cache_on m f && (negb (f_spref f =? SP_QUERY) || key_has_query k) && negb (kvarn_none f))
       && (N.of_nat (length (f_body f)) <? size_limit).
@@ -1315,7 +1315,7 @@ Section RefinesAssoc.
           pose proof (Hnovary hs r ok) as Hn.
           apply andb_true_iff in G as [Gok _]. rewrite Gok in *.
           destruct (compute hs r true) as [[f hs'] lg]. cbn [fst snd] in Hn.
-          rewrite (vrelookup_same _ _ _ _ F Fr). rewrite Eg. cbv zeta. rewrite admit_same.
+          rewrite (vrelookup_same _ _ _ _ F Fr). rewrite Eg. cbv zeta. rewrite accept_same.
           rewrite <- (finish_same r f _ true false Hn).
           destruct (wants_cache cache_on (rq_method r) f && (negb (f_spref f =? SP_QUERY) || key_has_query k)
                     && negb (kvarn_none f)); cbn [andb].
